@@ -34,4 +34,12 @@ except Exception as ex:
     text = '(* t3 failed: %r *)\nDefinition ApiGen_untranslatable : unit := tt.\n' % (ex,)
     status['ApiGen'] = {'_error': repr(ex)}
 write_if_changed(os.path.join(gen, 'ApiGen.v'), text)
+try:
+    import t5_imports  # noqa: E402
+    text, st, _ = t5_imports.generate(REPO)
+    status['ImportGen'] = st
+except Exception as ex:
+    text = '(* t5 failed: %r *)\nDefinition ImportGen_untranslatable : unit := tt.\n' % (ex,)
+    status['ImportGen'] = {'_error': repr(ex)}
+write_if_changed(os.path.join(gen, 'ImportGen.v'), text)
 print(json.dumps(status))
